@@ -75,6 +75,9 @@ def validated_python_name(name, value):
 
 
 def generated_tokens(text):
+    if "\0" in text:
+        # HACK: Python 3.12 raises SystemError instead of SyntaxError for a null byte after an indented line.
+        raise tokenize.TokenError("source code cannot contain null bytes")
     try:
         toky = list(tokenize.generate_tokens(_compat.token_io_readline(text)))
     except UnicodeError as error:
